@@ -100,16 +100,11 @@ ChildInit(t) ==       \* TaskHandle._run_coro: with self._cancel_scope: await co
   /\ UNCHANGED <<L, E, hist>>
 
 ChildEnd(t) ==        \* back in _run_coro: outcome recorded, finished event set, handle scope left
-  /\ ChildDoneEnabled(K, t)
-  /\ LET x == Reg(K, t)
-         r == ChildDone(K, L.tg, t) IN
+  /\ ChildDoneEnabled(K, t)    \* (not observable from outside: no event)
+  /\ LET r == ChildDone(K, L.tg, t) IN
      /\ K' = r.q
      /\ L' = [L EXCEPT !.tg = r.tg]
-     /\ Feed([ev |-> "exit", t |-> t, n |-> 1, ein |-> ExcName(x),
-              eout |-> ExcName(IF r.q.T[t].stack = <<>> THEN r.q.T[t].reg ELSE Val),
-              caught |-> B2I(r.caught), called |-> B2I(K.S[t][1].called), nc |-> r.q.T[t].nc,
-              timeout |-> 0])
-  /\ UNCHANGED <<E, hist>>
+  /\ UNCHANGED <<E, hist, pst, pbad>>
 
 (****************************** the shared event ****************************)
 WaitEnabled(q, t) == q.run = t /\ q.T[t].stack # <<>> /\ Top(q, t).f = "ev_wait"
@@ -268,7 +263,7 @@ ClientUnwind(t) ==
                /\ K' = IF IsExc(r.reg) THEN Raise(r.q, t, r.reg) ELSE Ret(r.q, t)
                /\ Feed([ev |-> "exit", t |-> t, n |-> 1, ein |-> ExcName(x), eout |-> ExcName(r.reg),
                         caught |-> B2I(r.caught), called |-> B2I(K.S[t][d].called), nc |-> r.q.T[t].nc,
-                        timeout |-> 0])
+                        timeout |-> 0, gc |-> GC])
           ELSE \* the child's coroutine ends here (the handle scope belongs to the wrapper)
                LET rv == Top(K, t).b.ret IN
                /\ K' = IF IsExc(x) THEN Raise(K, t, x) ELSE RetV(K, t, rv)
@@ -288,7 +283,7 @@ ClientUnwind(t) ==
           /\ K' = SetPc([r.q EXCEPT !.T[t].reg = r.reg], t, next(r.reg))
           /\ Feed([ev |-> "exit", t |-> t, n |-> tag.n, ein |-> ExcName(x), eout |-> ExcName(r.reg),
                    caught |-> B2I(r.caught), called |-> B2I(K.S[t][d].called), nc |-> r.q.T[t].nc,
-                   timeout |-> 0])
+                   timeout |-> 0, gc |-> GC])
   /\ UNCHANGED <<L, E, hist>>
 
 \* the `async with` statement of the group has finished (normally or raising)
